@@ -313,12 +313,21 @@ type LookupCacheCase struct {
 	GapUs    int      `json:"gap_us"`    // pause between starting the lookups
 }
 
+// lcVal is what the service serves for an undeclared name: "w" is a secret whose value is empty (the
+// server stores such values, a store that declares the name serves them; a lookup is no different)
+func lcVal(n string) string {
+	if n == "w" {
+		return ""
+	}
+	return "val-" + n
+}
+
 func runC16LookupCache(t *testing.T, c LookupCacheCase) (*h.Violation, h.Info) {
 	var info h.Info
 	svc := fake.NewSvc()
 	svc.Set("d", 1, []byte("dv"))
 	for i, n := range []string{"x", "y", "z", "w"} {
-		svc.Set(n, uint32(3+i), []byte("val-"+n))
+		svc.Set(n, uint32(3+i), []byte(lcVal(n)))
 	}
 	cache := fake.NewCache(nil)
 	st, err := setec.NewStore(context.Background(), setec.StoreConfig{Client: svc, Secrets: []string{"d"}, AllowLookup: true, Cache: cache, PollInterval: -1, Logf: nolog})
@@ -340,7 +349,7 @@ func runC16LookupCache(t *testing.T, c LookupCacheCase) (*h.Violation, h.Info) {
 		go func() {
 			defer wg.Done()
 			hd, err := st.LookupSecret(context.Background(), n)
-			if err == nil && string(hd.Get()) != "val-"+n {
+			if err == nil && string(hd.Get()) != lcVal(n) {
 				err = fmt.Errorf("handle yields %q", hd.Get())
 			}
 			errs[i] = err
@@ -361,7 +370,7 @@ func runC16LookupCache(t *testing.T, c LookupCacheCase) (*h.Violation, h.Info) {
 	for i, n := range c.Names {
 		if errs[i] != nil {
 			st.Close()
-			return h.V("harness", "lookup %q: %v", n, errs[i]), info
+			return h.V("working-handle", "the service is healthy and serves %q (%d bytes), yet its lookup failed: %v", n, len(lcVal(n)), errs[i]), info
 		}
 		distinct[n] = true
 	}
@@ -379,7 +388,7 @@ func runC16LookupCache(t *testing.T, c LookupCacheCase) (*h.Violation, h.Info) {
 		return h.V("cached-after-lookup", "cache document: %v", err), info
 	}
 	for _, n := range append([]string{"d"}, want...) {
-		if e, ok := doc[n]; !ok || string(e.Value) != map[bool]string{true: "dv", false: "val-" + n}[n == "d"] {
+		if e, ok := doc[n]; !ok || string(e.Value) != map[bool]string{true: "dv", false: lcVal(n)}[n == "d"] {
 			st.Close()
 			return h.V("cached-after-lookup", "every lookup of %v returned a working handle, but the cache document that was written last lacks %q (or holds other bytes): %s", want, n, cache.Data()), info
 		}
@@ -395,7 +404,7 @@ func runC16LookupCache(t *testing.T, c LookupCacheCase) (*h.Violation, h.Info) {
 	}
 	defer st2.Close()
 	for _, n := range want {
-		if hd := st2.Secret(n); hd == nil || string(hd.Get()) != "val-"+n {
+		if hd := st2.Secret(n); hd == nil || string(hd.Get()) != lcVal(n) {
 			return h.V("cached-after-lookup", "after a restart from the cache, %q (looked up successfully before) is not known", n), info
 		}
 	}
@@ -404,7 +413,7 @@ func runC16LookupCache(t *testing.T, c LookupCacheCase) (*h.Violation, h.Info) {
 
 var c16lookupCache = &h.Campaign[LookupCacheCase]{
 	Prop: "C16", Sub: "lookup-cache",
-	Rule:  "rapid, real time: 2-6 concurrent LookupSecret calls over 1-4 different unknown names on a store whose cache device holds one generated Write call for 1-8 ms (the later lookups start once that write is being held, or after generated pauses); afterwards the last cache document must list every looked-up secret with its bytes, and a store restarted from it with the service away must know them all; non-trivial = at least two different names; distinct by (scenario, run) because the interleaving is sampled",
+	Rule:  "rapid, real time: 2-6 concurrent LookupSecret calls over 1-4 different unknown names on a store whose cache device holds one generated Write call for 1-8 ms (the later lookups start once that write is being held, or after generated pauses); afterwards the last cache document must list every looked-up secret with its bytes, and a store restarted from it with the service away must know them all; one of the four names has an empty value; non-trivial = at least two different names; distinct by (scenario, run) because the interleaving is sampled",
 	Quick: 400, Thorough: 20000,
 	Gen: func(rt *rapid.T) LookupCacheCase {
 		return LookupCacheCase{
@@ -652,7 +661,7 @@ func TestC16LookupCache(t *testing.T) { c16lookupCache.Check(t) }
 // and a secret may be called anything - "poll" included - without its lookup getting mixed up with
 // the store's other business (a Refresh that happens to be in flight).
 
-var neighbourWaitMs = func() *atomic.Int64 { v := &atomic.Int64{}; v.Store(6000); return v }()
+var neighbourWaitMs = func() *atomic.Int64 { v := &atomic.Int64{}; v.Store(30000); return v }()
 
 type NeighbourCase struct {
 	Kind  string `json:"kind"`  // two-stores | lookup-during-refresh | refresh-during-lookup
@@ -702,6 +711,8 @@ func runC16Neighbours(t *testing.T, c NeighbourCase) (*h.Violation, h.Info) {
 		}()
 		return ch
 	}
+	// wait: the call must come back - within 30 s of real time once nothing holds it any more (a call
+	// that never returns is stuck for good, not slow)
 	wait := func(ch chan res, what string) (res, *h.Violation) {
 		select {
 		case r := <-ch:
@@ -713,8 +724,36 @@ func runC16Neighbours(t *testing.T, c NeighbourCase) (*h.Violation, h.Info) {
 			// (once a call has been seen to hang, the re-runs rapid makes while it shrinks the scenario
 			// need not wait as long again)
 			neighbourWaitMs.Store(400)
-			return res{}, h.V("working-handle", "%s had not returned after several seconds of real time although its own service answers at once (it is waiting for somebody else's request)", what)
+			return res{}, h.V("working-handle", "%s had not returned 30 s (real time) after every request of every service had been answered", what)
 		}
+	}
+	// soon: has the call returned within a short while? Waiting for a neighbour is not forbidden - what a
+	// call returns in the end is what counts - so "not yet" is an observation, not a verdict.
+	soon := func(ch chan res) (res, bool) {
+		select {
+		case r := <-ch:
+			return r, true
+		case <-time.After(300 * time.Millisecond):
+			return res{}, false
+		}
+	}
+	// waitOpening waits for a call that is parked at svc's gate: the gate is opened again and again
+	// until the call returns (a request counts as in flight a moment before it reaches the gate; an
+	// OpenGate that falls into that moment opens nothing)
+	waitOpening := func(svc *fake.Svc, ch chan res, what string) (res, *h.Violation) {
+		stop := make(chan struct{})
+		defer close(stop)
+		go func() {
+			for {
+				svc.OpenGate()
+				select {
+				case <-stop:
+					return
+				case <-time.After(5 * time.Millisecond):
+				}
+			}
+		}()
+		return wait(ch, what)
 	}
 	svcA, stA, err := mkStore("A")
 	if err != nil {
@@ -734,23 +773,28 @@ func runC16Neighbours(t *testing.T, c NeighbourCase) (*h.Violation, h.Info) {
 		if !waitInFlight(svcA, c.Name) {
 			return h.V("harness", "store A's lookup did not reach its service"), info
 		}
-		rB, v := wait(async(func() (string, error) { return ask(stB) }), "the lookup on store B (store A's lookup of the same name is still pending at A's service)")
+		chB := async(func() (string, error) { return ask(stB) })
+		rB, early := soon(chB)
+		if !early {
+			info.Class("store-B-waited-for-store-A's-lookup")
+		}
+		rA, v := waitOpening(svcA, chA, "the lookup on store A")
 		if v != nil {
-			svcA.OpenGate()
 			return v, info
+		}
+		if !early {
+			if rB, v = wait(chB, "the lookup on store B"); v != nil {
+				return v, info
+			}
+		}
+		if rB.pan != nil {
+			return h.V("never-a-panic", "the lookup on store B panicked: %v", rB.pan), info
 		}
 		if rB.err != nil || rB.val != "value-from-B" {
-			svcA.OpenGate()
-			return h.V("working-handle", "two stores in one process, each with its own service; while store A's lookup of %q was pending, the lookup on store B returned %q, %v - its service serves %q", c.Name, rB.val, rB.err, "value-from-B"), info
+			return h.V("working-handle", "two stores in one process, each with its own service; store B looked %q up while store A's lookup of the same name was pending and got %q, %v - its service serves %q", c.Name, rB.val, rB.err, "value-from-B"), info
 		}
 		if svcB.CountFor(c.Name) != 1 || stB.Secret(c.Name) == nil {
-			svcA.OpenGate()
 			return h.V("unknown-name-is-fetched", "store B's service saw %d requests for %q and store B knows the secret = %v after its lookup succeeded", svcB.CountFor(c.Name), c.Name, stB.Secret(c.Name) != nil), info
-		}
-		svcA.OpenGate()
-		rA, v := wait(chA, "the lookup on store A")
-		if v != nil {
-			return v, info
 		}
 		if rA.err != nil || rA.val != "value-from-A" {
 			return h.V("working-handle", "store A's lookup returned %q, %v", rA.val, rA.err), info
@@ -762,16 +806,28 @@ func runC16Neighbours(t *testing.T, c NeighbourCase) (*h.Violation, h.Info) {
 		if !waitInFlight(svcA, "d") {
 			return h.V("harness", "the poll did not reach the service"), info
 		}
-		r, v := wait(async(func() (string, error) { return ask(stA) }), fmt.Sprintf("the lookup of %q while a Refresh is in flight", c.Name))
-		svcA.OpenGate()
+		chL := async(func() (string, error) { return ask(stA) })
+		r, early := soon(chL)
+		if !early {
+			info.Class("the-lookup-waited-for-the-refresh")
+		}
+		rr, v := waitOpening(svcA, chR, "the Refresh")
 		if v != nil {
 			return v, info
+		}
+		if !early {
+			if r, v = wait(chL, fmt.Sprintf("the lookup of %q", c.Name)); v != nil {
+				return v, info
+			}
+		}
+		if r.pan != nil {
+			return h.V("never-a-panic", "the lookup of %q while a Refresh was in flight panicked: %v", c.Name, r.pan), info
 		}
 		if r.err != nil || r.val != "value-from-A" || svcA.CountFor(c.Name) < 1 {
 			return h.V("unknown-name-is-fetched", "a lookup of the secret named %q while a Refresh was in flight returned %q, %v after %d requests for it", c.Name, r.val, r.err, svcA.CountFor(c.Name)), info
 		}
-		if rr, v := wait(chR, "the Refresh"); v != nil || rr.err != nil {
-			return h.V("harness", "Refresh: %v %v", v, rr.err), info
+		if rr.err != nil {
+			return h.V("harness", "Refresh: %v", rr.err), info
 		}
 		info.Class("lookup-while-a-refresh-is-in-flight")
 	case "refresh-during-lookup":
@@ -781,18 +837,30 @@ func runC16Neighbours(t *testing.T, c NeighbourCase) (*h.Violation, h.Info) {
 			return h.V("harness", "the lookup did not reach the service"), info
 		}
 		svcA.Set("d", 2, []byte("dv-A-2"))
-		rr, v := wait(async(func() (string, error) { return "", stA.Refresh(context.Background()) }), fmt.Sprintf("a Refresh while the lookup of %q is pending", c.Name))
-		if v == nil && rr.err == nil {
-			if got := string(stA.Secret("d").Get()); got != "dv-A-2" {
-				v = h.V("polled-after-lookup", "a Refresh issued while the lookup of a secret named %q was pending returned nil without polling: the declared secret still yields %q", c.Name, got)
-			}
+		chRf := async(func() (string, error) { return "", stA.Refresh(context.Background()) })
+		rr, early := soon(chRf)
+		if !early {
+			info.Class("the-refresh-waited-for-the-lookup")
 		}
-		svcA.OpenGate()
+		r, v := waitOpening(svcA, chL, "the lookup")
 		if v != nil {
 			return v, info
 		}
-		if r, v := wait(chL, "the lookup"); v != nil || r.err != nil || r.val != "value-from-A" {
-			return h.V("working-handle", "the lookup of %q returned %q, %v (%v)", c.Name, r.val, r.err, v), info
+		if !early {
+			if rr, v = wait(chRf, fmt.Sprintf("a Refresh issued while the lookup of %q was pending", c.Name)); v != nil {
+				return v, info
+			}
+		}
+		if rr.pan != nil {
+			return h.V("never-a-panic", "a Refresh issued while the lookup of %q was pending panicked: %v", c.Name, rr.pan), info
+		}
+		if rr.err == nil {
+			if got := string(stA.Secret("d").Get()); got != "dv-A-2" {
+				return h.V("polled-after-lookup", "a Refresh issued while the lookup of a secret named %q was pending returned nil without having polled: the declared secret still yields %q, the service's active version holds %q", c.Name, got, "dv-A-2"), info
+			}
+		}
+		if r.err != nil || r.val != "value-from-A" {
+			return h.V("working-handle", "the lookup of %q returned %q, %v", c.Name, r.val, r.err), info
 		}
 		info.Class("refresh-while-a-lookup-is-pending")
 	}
@@ -811,6 +879,27 @@ var c16neighbours = &h.Campaign[NeighbourCase]{
 	Run: runC16Neighbours,
 }
 
-func init() { c16neighbours.Register() }
+// The third kind is as much a statement about polls as about lookups ("when Refresh completes without
+// error every secret the store knows yields the service's active version"), so C11 runs it as well.
+var c11neighbours = &h.Campaign[NeighbourCase]{
+	Prop: "C11", Sub: "refresh-while-a-lookup-is-pending",
+	Rule: "rapid (real time, gates): the first lookup of an undeclared secret - its name drawn from {x, poll, lookup:x, refresh, d} - is held at the service while the declared secret gets a new active version and Refresh is called: a Refresh that returns nil has polled (the declared secret yields the new version), and it does not wait for the lookup; non-trivial = every completed case; distinct by scenario",
+	Quick: 40, Thorough: 2000, ShrinkTime: "1ms",
+	Gen: func(rt *rapid.T) NeighbourCase {
+		return NeighbourCase{Kind: "refresh-during-lookup",
+			Name: rapid.SampledFrom([]string{"x", "poll", "poll", "lookup:x", "refresh", "lookup:poll"}).Draw(rt, "name"), Entry: rapid.SampledFrom([]string{"lookup", "updater"}).Draw(rt, "entry")}
+	},
+	Run: func(t *testing.T, c NeighbourCase) (*h.Violation, h.Info) {
+		v, info := runC16Neighbours(t, c)
+		if v != nil && v.Clause == "polled-after-lookup" {
+			v.Clause, v.Sig = "successful-poll-brings-every-secret-to-active", "successful-poll-brings-every-secret-to-active"
+		}
+		return v, info
+	},
+}
+
+func TestC11RefreshWhileLookupPending(t *testing.T) { c11neighbours.Check(t) }
+
+func init() { c16neighbours.Register(); c11neighbours.Register() }
 
 func TestC16Neighbours(t *testing.T) { c16neighbours.Check(t) }
